@@ -950,33 +950,37 @@ def classify_uncompilable(o, L):
     if o['mode'] == 0 and (re.search(r'^Fatal Error on (?![^\n]*During code generation)', err, re.M) or
                            (limit_warnings(err) and kinds == {'limit'})):
         # the sanity checks saw and reported a fatal problem; without --Werror main() ignores their (negative) answer
-        return K_DEFAULT, es
+        return [K_DEFAULT], es
     if any("duplicate member '_f_" in l for l in ccerr.splitlines()):
-        return K_DUPFLOW, es
+        return [K_DUPFLOW], es
     m = re.search(r"duplicate member '(\w+)'", ccerr)
     if m and len(re.findall(r'^\s*%s\s*=[^=]' % re.escape(m.group(1)), open(o['jdf']).read(), re.M)) > 1:
-        return K_DUPLOCAL, es
-    if kinds == {'limit'}:
-        fired = set(e[0] for e in fired_errors(o, L))
-        if fired <= {'flows', 'unused'}:
-            return K_FLOWS, es
-        return 'limit-left-to-the-C-compiler:%s' % '+'.join(sorted(fired)), es
-    if kinds == {'twodata'}:
-        return K_TWODATA, es
-    if kinds == {'noldef'}:
-        return K_LDEF, es
-    if kinds == {'redecl'}:
-        return K_REDECL, es
-    und = [re.search(r"'(\w+)' undeclared", l) for l in es]
-    if kinds == {'other'} and all(und):
-        # every error is an undeclared identifier that the JDF uses only in priority expressions (`; expr`)
-        txt = open(o['jdf']).read()
-        prio = ' '.join(re.findall(r'^\s*;[^\n]*', txt, re.M))
-        rest = re.sub(r'^\s*;[^\n]*', '', txt, flags=re.M)
-        names = set(m.group(1) for m in und)
-        if all(re.search(r'\b%s\b' % re.escape(n), prio) and not re.search(r'\b%s\b' % re.escape(n), rest) for n in names):
-            return K_PRIO, es
-    return 'accepted-but-uncompilable', es
+        return [K_DUPLOCAL], es
+    keys = []
+    for kind in sorted(kinds):       # several independent causes may meet in one program
+        if kind == 'limit':
+            fired = set(e[0] for e in fired_errors(o, L)) - {'other', 'noldef'}
+            keys.append(K_FLOWS if fired <= {'flows', 'unused'} else 'limit-left-to-the-C-compiler:%s' % '+'.join(sorted(fired)))
+        elif kind == 'twodata':
+            keys.append(K_TWODATA)
+        elif kind == 'noldef':
+            keys.append(K_LDEF)
+        elif kind == 'redecl':
+            keys.append(K_REDECL)
+        else:
+            oth = [l for l in es if not ('#error' in l or 'is negative' in l or '_direct_access' in l or "named 'ldef'" in l or 'with no linkage' in l)]
+            und = [re.search(r"'(\w+)' undeclared", l) for l in oth]
+            k = 'accepted-but-uncompilable'
+            if oth and all(und):
+                # every such error is an undeclared identifier that the JDF uses only in priority expressions (`; expr`)
+                txt = open(o['jdf']).read()
+                prio = ' '.join(re.findall(r'^\s*;[^\n]*', txt, re.M))
+                rest = re.sub(r'^\s*;[^\n]*', '', txt, flags=re.M)
+                names = set(m.group(1) for m in und)
+                if all(re.search(r'\b%s\b' % re.escape(n), prio) and not re.search(r'\b%s\b' % re.escape(n), rest) for n in names):
+                    k = K_PRIO
+            keys.append(k)
+    return keys or ['accepted-but-uncompilable'], es
 
 
 def classify_san(msgs):
@@ -1016,9 +1020,10 @@ def judge(case, o, L):
             v.append(('rejected-without-diagnostic', 'exit status %s and nothing printed (%s)' % (r['rc'], mode)))
     else:
         if not o['cc'][0]:
-            k, es = classify_uncompilable(o, L)
-            v.append((k, 'exit status 0 (%s) but the emitted C does not compile: %s%s' % (
-                mode, ' ; '.join(e.split(': ', 1)[-1][:120] for e in es[:3]), (' ; ptgpp said: ' + r['err'].strip()[:200]) if r['err'].strip() else '')))
+            ks, es = classify_uncompilable(o, L)
+            for k in ks:
+                v.append((k, 'exit status 0 (%s) but the emitted C does not compile: %s%s' % (
+                    mode, ' ; '.join(e.split(': ', 1)[-1][:120] for e in es[:3]), (' ; ptgpp said: ' + r['err'].strip()[:200]) if r['err'].strip() else '')))
     if case['kind'] == 'shape':
         why = oracle_exceeds(case['shape'], L)
         if why and r['rc'] == 0 and o['cc'][0]:
